@@ -28,6 +28,7 @@ def term_source(pid: str, tier: str):
     out = [("ENUM", t) for t in F.enum_terms(tier)]
     out += [("SKEL", t) for t in F.skel_terms(tier)]
     out += [("NARY", t) for t in F.nary_terms(tier)]
+    out += [("PARAM", t) for t in F.param_terms(tier)]
     seen = set()
     res = []
     for fam, t in out:
@@ -93,8 +94,45 @@ def eval_routes(e, t, env):
     return routes
 
 
+def reuse_outcomes(t):
+    """Executions on *reused* objects (users evaluate one expression at many points and build new
+    expressions over pieces they already used):
+      'persistent'  one object per sharing mode evaluated at every grid point in enumeration order,
+                    including the points where evaluation fails part-way;
+      'over-used-children'  children built and evaluated at the first grid point, then a new parent
+                    constructed over those child objects and evaluated at every other point.
+    Yields (label, env, outcome)."""
+    vs = M.variables(t)
+    grid = M.grid_for(vs)
+    for share in [False] + ([True] if has_repeated_inner(t) else []):
+        e = A.build(t, share)
+        for env in grid:
+            yield ("persistent" + ("-dag" if share else ""), env, A.outcome(lambda: e.at(A.make_point(env))))
+    kids_t = M.children(t)
+    if kids_t and len(grid) > 1 and any(c[0] not in ("var", "const") for c in kids_t):
+        kids = [A.build(c) for c in kids_t]
+        for k in kids:
+            A.outcome(lambda: k.at(A.make_point(grid[0])))
+        parent = A.build_over(t, kids)
+        for env in grid[1:]:
+            yield ("over-used-children", env, A.outcome(lambda: parent.at(A.make_point(env))))
+
+
 def c01_term(fam, t, st: Stats):
     vs = M.variables(t)
+    for label, env, o in reuse_outcomes(t):
+        r = RS.ref_eval(t, env)
+        st.inc("transitions")
+        if r.status != "ok":
+            continue
+        st.inc("reused_object_evaluations")
+        if o[0] != "val":
+            st.violation(case(t, env, label, "at(Point) on a reused object", repr(r), o,
+                              f"defined point but evaluation on a reused object did not return a number: {o}"))
+            continue
+        verdict = RS.judge_value(r, o[1])
+        if verdict[0] == "bad":
+            st.violation(case(t, env, label, "at(Point) on a reused object", repr(r), o, verdict[1]))
     for env in M.grid_for(vs):
         r = RS.ref_eval(t, env)
         st.inc("states")
@@ -131,6 +169,18 @@ def c01_term(fam, t, st: Stats):
 
 def c02_term(fam, t, st: Stats):
     vs = M.variables(t)
+    for label, env, o in reuse_outcomes(t):
+        r = RS.ref_eval(t, env)
+        st.inc("transitions")
+        if r.status in ("amb", "range"):
+            continue
+        st.inc("reused_object_evaluations")
+        if r.status == "undef" and o[0] != "dom":
+            st.violation(case(t, env, label, "at(Point) on a reused object", repr(r), o,
+                              f"sub-expression outside its domain ({r.why}) but a reused object gave {o}"))
+        elif r.status == "ok" and (o[0] != "val" or not A.is_finite_real(o[1])):
+            st.violation(case(t, env, label, "at(Point) on a reused object", repr(r), o,
+                              f"point of the domain but a reused object gave {o}"))
     for env in M.grid_for(vs):
         r = RS.ref_eval(t, env)
         st.inc("states")
